@@ -51,7 +51,7 @@ fork outputs contain no `None`, ports are nodes of the circuit (plus model bookk
   - `resolve_wf` (`resolvePre`), `resolve_wf_static` (`resolveStatic`), uniformly `step2_wf`, and `history_wf2` /
     `history_wf2_prefix` for histories over all twelve operations.  NOTE (audit 2, F8): `pre2` of `substitute` / `resolve`
     is `substPre` / `resolvePre`, which contain `forksFull` of the RESULT (a conjunct of the conclusion) and the pin guards
-    evaluated along the run — `history_wf2` is a theorem about the other eleven clauses of `WFc` for these two operations;
+    evaluated along the run — for these two operations `history_wf2` proves only the remaining clauses of `WFc` (`WFc0`);
   - `history_wf2_static` (+ `history_static_is_history`): the same for histories replayed under the STRUCTURAL
     preconditions `pre2s` (Proofs/CircObjHistoryStatic.lean: `substStatic` for `substitute`, `resolveStatic` for
     `resolve_tlib_cells`, `pre` / index-in-range for the rest): nothing about the result of a substitution is assumed.
